@@ -1,8 +1,8 @@
 #!/bin/bash
 # usage: confirm_seeded.sh <PROP> <k>   (uses /tmp/mut/wt_<PROP> and /tmp/mut/out_<PROP>/<k>)
 # Confirms in the scratch worktree: demo passes without the patch, fails with it, and the baseline suite still has 254 passes.
-P=$1; K=$2
-WT=/tmp/mut/wt2_$P; OUT=/tmp/mut/out2_$P/$K
+P=$1; K=$2; R=${ROUND:-2}
+WT=/tmp/mut/wt${R}_$P; OUT=/tmp/mut/out${R}_$P/$K
 git -C $WT checkout -q -- . 
 export PYTHONPATH=$WT/python PYTHONWARNINGS=ignore
 cd $OUT
